@@ -119,7 +119,16 @@ func (w *World) fn(name string) *ssa.Function {
 
 func (w *World) pkg(path string) *packages.Package { return w.all[path] }
 
+// thoroughTier deepens every exploration: one more loop unrolling, inlining depth at least 8.
+var thoroughTier bool
+
 func (w *World) engine(depth, loops int) *Engine {
+	if thoroughTier {
+		loops++
+		if depth > 0 && depth < 8 {
+			depth = 8
+		}
+	}
 	return &Engine{prog: w.prog, fset: w.fset, modPrefix: modPath, maxDepth: depth, loopBound: loops, maxPaths: 20000, funcByName: w.funcs, opaque: map[string]bool{}, hof: map[string]int{}}
 }
 
